@@ -66,7 +66,7 @@ def exhaustive_1d(maxlen=6, rng=8, steps=3, masklen=5, mrng=4, iadd=True, conver
                   "alloc " + vals(base_vals(n, 30)), "setvectormask 0 1 3",
                   "alloc " + vals(base_vals(cnt, 40)), "setvectormask 0 1 4",
                   "alloc " + vals(base_vals(n + cnt + 1, 60)), "setvectormask 0 1 5",
-                  "ifelses 0 1 5", "ifelsev 0 1 3", "ifelsev 0 1 5", "ifelsev 0 5 3",
+                  "ifelses 0 1 5", "ifelsev 0 1 3", "ifelsev 0 1 5",
                   "setscalar 2 s:N:N:N 8", "setvector 2 s:N:N:N 4", "setvector 2 s:N:N:-1 4",
                   "getslice 2 s:N:N:-1", "getslice 2 s:1:N:2",
                   "getmask 2 1", "setvectormask 2 1 4", "copy 2", "len 0"]
@@ -75,8 +75,8 @@ def exhaustive_1d(maxlen=6, rng=8, steps=3, masklen=5, mrng=4, iadd=True, conver
             yield "mask", p
             # wrong mask lengths, non-0/1 mask values
             p = ["alloc " + vals(bv), "alloci " + vals(list(bits) + [1]), "getmask 0 1", "setscalarmask 0 1 5",
-                 "setvectormask 0 1 0", "ifelses 0 1 2", "alloci " + vals([b * (-3) for b in bits]), "getmask 0 2",
-                 "setscalarmask 0 2 6"]
+                 "setvectormask 0 1 0", "ifelses 0 1 2", "ifelsev 0 1 0", "alloci " + vals([b * (-3) for b in bits]),
+                 "getmask 0 2", "setscalarmask 0 2 6"]
             if n > 0:
                 p += ["alloci " + vals(bits[:-1]), "getmask 0 4", "setscalarmask 0 4 5"]
             yield "mask-mismatch", p
@@ -107,9 +107,9 @@ def exhaustive_1d(maxlen=6, rng=8, steps=3, masklen=5, mrng=4, iadd=True, conver
             cnt = sum(bits)
             setup = ["alloc " + vals(bv), "alloci " + vals(bits), "alloc " + vals(base_vals(n, 30)),
                      "alloc " + vals(base_vals(cnt, 40)), "ro 0", "getmask 0 1", "copy 0", "getslice 0 s:N:N:N",
-                     "getmask 5 1", "copy 4"]
+                     "getmask 5 1", "copy 4", "alloci " + vals([1] * cnt)]
             # views: 0 base(ro) 1 mask 2 data(n) 3 data(cnt) 4 masked ref 5 handle copy 6 slice copy (writable)
-            #        7 masked ref of the copy 8 copy of the masked ref
+            #        7 masked ref of the copy 8 copy of the masked ref 9 all-ones choice of the masked length
             for v in (0, 4, 5, 7, 8):
                 muts = ["setscalar %d i:0 1" % v, "setscalar %d s:N:N:N 1" % v, "setscalarmask %d 1 1" % v,
                         "setvector %d s:N:N:N 2" % v, "setvector %d s:N:N:N 3" % v, "setvectormask %d 1 2" % v,
@@ -121,13 +121,13 @@ def exhaustive_1d(maxlen=6, rng=8, steps=3, masklen=5, mrng=4, iadd=True, conver
             yield "readonly", setup + ["setscalar 6 s:N:N:N 1", "len 6"]
             yield "readonly-read", setup + ["ifelses 0 1 9"]
             yield "readonly-read", setup + ["ifelsev 0 1 2"]
-            yield "readonly-read", setup + ["ifelses 4 3 9"] if cnt == n or True else None
+            yield "readonly-read", setup + ["ifelses 4 9 9"]
             yield "readonly-read", setup + ["getslice 0 s:N:N:-1", "getitem 4 0", "getitem 0 -1"]
     # (g) converting constructor
     if convert:
         for n in range(masklen + 1):
             bv = base_vals(n)
-            yield "convert", ["alloc " + vals(bv), "convert 0", "setscalar 1 s:N:N:N 3", "len 1"]
+            yield "convert", ["alloc " + vals(bv), "convert 0", "len 1"] + ["getitem 1 %d" % i for i in range(-n - 1, n + 1)]
             for bits in itertools.product((0, 1), repeat=n):
                 p = ["alloc " + vals(bv), "alloci " + vals(bits), "getmask 0 1", "convert 2", "len 3"]
                 p += ["getitem 3 %d" % i for i in range(sum(bits))]
@@ -140,24 +140,45 @@ def exhaustive_1d(maxlen=6, rng=8, steps=3, masklen=5, mrng=4, iadd=True, conver
 MUT = ("setscalar", "setscalarmask", "setvector", "setvectormask", "iadds", "iaddv")
 
 
-def random_program(rng, nops=20, iadd=True, convert=True):
+def random_program(rng, nops=20, iadd=True, convert=True, typed=False):
     """One random program.  A SpecExec shadow is used only to pick plausible arguments (right lengths most
     of the time); the program stays well-formed even when the shadow is wrong about the real code."""
-    sp = SpecExec()
+    sp = SpecExec(quirks=True)
     lines = []
+    ints, foreign = set(), set()       # ids of IntArrays (alloci) / of views of another class (convert and derived)
 
     def emit(l):
         lines.append(l)
+        n0 = len(sp.objs)
         try:
             sp.run(l.split())
         except (BadRef, SpecErr, Exception):
             pass
+        if len(sp.objs) > n0:
+            t = l.split()
+            if t[0] == "alloci":
+                ints.add(n0)
+            elif t[0] == "convert" or (t[0] in ("getslice", "getmask", "copy", "ifelses", "ifelsev") and int(t[1]) in foreign):
+                foreign.add(n0)
+            elif t[0] in ("getslice", "getmask", "copy", "ifelses", "ifelsev") and int(t[1]) in ints:
+                ints.add(n0)
 
     def rint(lo, hi):
         return rng.randint(lo, hi)
 
-    def pick(pred=None):
-        c = [i for i, o in enumerate(sp.objs) if pred is None or pred(o)]
+    def pick(pred=None, kind="elem"):
+        """kind: elem = arrays of the class under test; int = usable as mask/choice; any = anything (reads only)"""
+        def okk(i):
+            if kind == "any":
+                return True
+            if i in foreign:          # an array of another class (converting constructor): reads only
+                return False
+            if not typed:
+                return True
+            if kind == "int":
+                return i in ints
+            return i not in ints
+        c = [i for i, o in enumerate(sp.objs) if okk(i) and (pred is None or pred(o))]
         return rng.choice(c) if c else None
 
     def rslice():
@@ -178,6 +199,8 @@ def random_program(rng, nops=20, iadd=True, convert=True):
     emit("alloc " + vals(base_vals(n0)))
     while len(lines) < nops:
         v = pick()
+        if v is None:
+            v = 0
         o = sp.objs[v]
         n = len(o)
         r = rng.random()
@@ -191,14 +214,15 @@ def random_program(rng, nops=20, iadd=True, convert=True):
         op = rng.choices(ops, wts)[0]
         right = rng.random() < 0.8
         if op == "getitem":
-            emit("getitem %d %d" % (v, rint(-n - 1, n)))
+            va = pick(None, "any")
+            emit("getitem %d %d" % (va, rint(-len(sp.objs[va]) - 1, len(sp.objs[va]))))
         elif op == "len":
-            emit("len %d" % v)
+            emit("len %d" % pick(None, "any"))
         elif op == "getslice":
             emit("getslice %d %s" % (v, rslice()))
         elif op in ("getmask", "setscalarmask", "ifelses"):
             ln = n if right else (o.ulen if (o.sel is not None and rng.random() < 0.6) else max(0, n + rng.choice([-1, 1])))
-            m = pick(lambda x: len(x) == ln and all(b in (0, 1) for b in x.tolist())) if rng.random() < 0.3 else None
+            m = pick(lambda x: len(x) == ln and all(b in (0, 1) for b in x.tolist()), "int") if rng.random() < 0.3 else None
             if m is None:
                 m = new_of_len(ln, "alloci", 0, 1)
             if op == "getmask":
@@ -247,10 +271,26 @@ def random_program(rng, nops=20, iadd=True, convert=True):
     return lines
 
 
-def random_programs(seed, count, nops=20, iadd=True, convert=True):
+def random_programs(seed, count, nops=20, iadd=True, convert=True, typed=False):
     rng = random.Random(seed)
     for _ in range(count):
-        yield "random", random_program(rng, rng.randint(6, nops), iadd, convert)
+        yield "random", random_program(rng, rng.randint(6, nops), iadd, convert, typed)
+
+
+def boolify(programs):
+    """element values restricted to 0/1 (BoolArray)"""
+    def fix_vals(v):
+        return v if v == "-" else ",".join(str(int(x) % 2) for x in v.split(","))
+    for kind, p in programs:
+        out = []
+        for l in p:
+            t = l.split()
+            if t[0] == "alloc":
+                t[1] = fix_vals(t[1])
+            elif t[0] in ("setscalar", "setscalarmask", "ifelses"):
+                t[3] = str(int(t[3]) % 2)
+            out.append(" ".join(t))
+        yield kind, out
 
 
 # ----------------------------------------------------------------------------------------------
